@@ -21,6 +21,9 @@ var outDir = envOr("PVERIF_OUT", filepath.Join(verifDir, "evidence"))
 type PropFunc struct {
 	Pkg  string `json:"pkg"`
 	Name string `json:"name"`
+	// Only: when set, only obligations whose name contains one of these substrings belong to the check
+	// (e.g. the call-site precondition of one callee inside a function too large to verify in full)
+	Only []string `json:"only,omitempty"`
 }
 
 type StaticCheck struct {
@@ -217,6 +220,25 @@ func (r *checkRun) genFunc(pf PropFunc, macro bool) *VC {
 	specMacroMode = macro
 	vc := GenFunc(r.prog, fn, fc)
 	specMacroMode = false
+	if len(pf.Only) > 0 {
+		total := len(vc.obls)
+		var keep []*Obligation
+		for _, o := range vc.obls {
+			for _, sub := range pf.Only {
+				if strings.Contains(o.Name, sub) {
+					keep = append(keep, o)
+					break
+				}
+			}
+		}
+		vc.obls = keep
+		if !macro {
+			r.notes[fmt.Sprintf("%s: only the obligations matching %v are part of this check (%d of %d generated); the rest of the function is not verified", qn, pf.Only, len(keep), total)] = true
+			if len(keep) == 0 {
+				r.bindErrs = append(r.bindErrs, fmt.Sprintf("%s: no obligation matches %v (vacuous selection)", qn, pf.Only))
+			}
+		}
+	}
 	if !macro {
 		for _, e := range vc.errs {
 			r.bindErrs = append(r.bindErrs, qn+": "+e)
@@ -230,6 +252,9 @@ func (r *checkRun) genFunc(pf PropFunc, macro bool) *VC {
 			}
 		}
 		r.funcs = append(r.funcs, map[string]interface{}{"name": qn, "file": strings.TrimPrefix(file, repoDir+"/"), "line": line, "source_hash": hash, "arith": fc.Arith, "clauses": nclauses, "bounded": fc.Bounded, "obligations": len(vc.obls)})
+		for k := range vc.prog.assumed {
+			r.trusted[k] = true
+		}
 		for k := range vc.enc.trusted {
 			r.trusted[k] = true
 		}
